@@ -1500,3 +1500,59 @@ def rule_ctor_args_in_order(ctx: Ctx, rep: Report, rule: str, module_prefixes: t
                    "each named entry is in its own parameter's place" if not mine else
                    "; ".join(f"argument {i + 1} is the entry `{k}` where the constructor takes `{p_}`" for _, i, k, p_ in mine))
     rep.floor(rule, floor)
+
+
+_RAW_SAMPLE = """
+def f(target: Octets):
+    octets = bytes_from_octets(target)
+    if len(target) > 32:
+        raise ValueError
+    return octets
+"""
+
+
+def raw_measured_after_conversion(fn: ast.AST) -> list[tuple[ast.AST, str, str]]:
+    """`v = bytes_from_octets(p)` (or str_from_string / int_from_integer) under another
+    name, and then `len(p)`, `p[...]` or a loop over `p`: the caller's spelling measured
+    where the value was meant. A parameter annotated bytes/str/int has one spelling."""
+    a = fn.args
+    params = {p_.arg: p_.annotation for p_ in a.posonlyargs + a.args + a.kwonlyargs}
+    out = []
+    for st in own_nodes(fn):
+        if not (isinstance(st, ast.Assign) and len(st.targets) == 1 and isinstance(st.targets[0], ast.Name) and isinstance(st.value, ast.Call)
+                and st.value.args and isinstance(st.value.args[0], ast.Name)):
+            continue
+        nm, p_ = call_name(st.value) or "", st.value.args[0].id
+        if nm not in ("bytes_from_octets", "str_from_string", "int_from_integer") or p_ not in params or st.targets[0].id == p_:
+            continue
+        ann = params[p_]
+        if ann is not None and _ann_text(ann) in ("bytes", "str", "int"):
+            continue
+        for x in own_nodes(fn):
+            if isinstance(x, ast.Name) and x.id == p_ and isinstance(x.ctx, ast.Load) and x.lineno > st.lineno:
+                par = parent(x)
+                if (isinstance(par, ast.Call) and call_name(par) == "len") or (isinstance(par, ast.Subscript) and par.value is x) or \
+                        (isinstance(par, (ast.For, ast.comprehension)) and par.iter is x):
+                    out.append((par, p_, st.targets[0].id))
+    return out
+
+
+def rule_converted_then_raw(ctx: Ctx, rep: Report, rule: str, module_prefixes: tuple[str, ...]) -> None:
+    """Octets are bytes or their hex text, a String is str or bytes: once a
+    parameter has been converted under another name, its length, its items
+    and its slices are read off the converted value -- `len()` of 64 hex
+    digits is not the 32 of the bytes they spell, and a bound tested on the
+    raw argument refuses (or admits) by spelling."""
+    from sa.loader import _set_parents
+    sample = ast.parse(_RAW_SAMPLE)
+    _set_parents(sample)
+    rep.ob(rule, "selftest:sample", len(raw_measured_after_conversion(sample.body[0])) == 1, "rules/sigcommon.py:1", "the detector fires on its own sample (expected count on the tree is zero)")
+    n = 0
+    for q, fi in sorted(ctx.prog.functions.items()):
+        if not any(q.startswith(p_) for p_ in module_prefixes):
+            continue
+        n += 1
+        for node, p_, v in raw_measured_after_conversion(fi.node):
+            rep.ob(rule, f"{q}:{norm(node)[:40]}", False, fi.where(node), f"`{norm(node)[:60]}` measures the caller's spelling `{p_}` after it was converted to `{v}`: hex text is twice as long as the bytes it spells")
+    rep.ob(rule, "scanned", True, "btclib:1", f"{n} functions in {module_prefixes}")
+    rep.floor(rule, 2)
